@@ -113,12 +113,14 @@ class SeriesOps:
             asc = kw.get("ascending", True)
             c = s.ctx
             return Ser(s.term, (c[0], c[1], ("sort", (s.term,), asc, kw.get("kind", "quicksort"), None)) if len(c) == 3 else c, s.frame, s.name)
-        if name == "reset_index" and s.frame is not None and isinstance(s.name, str) and not kw.get("drop") and s.frame.ctx() == s.ctx and hasattr(self, "f_reset_index"):
-            # Series.reset_index(): a frame with the index as column(s) and the values under the series' name
-            g = self.project(s.frame, [s.name] if s.frame.has(s.name) else [], node)
-            g.setcol(s.name, s.term)
-            g.index, g.index_name = s.frame.index, getattr(s.frame, "index_name", None)
-            g.index_keys = getattr(s.frame, "index_keys", None)
+        if name == "reset_index" and s.frame is not None and (isinstance(s.name, str) or s.name is None) and not kw.get("drop") and len(s.ctx) == 3 and s.frame.base == s.ctx[0] and hasattr(self, "f_reset_index"):
+            # Series.reset_index(): a frame with the index as column(s) and the values under the series' name (0 for an unnamed series)
+            vname = s.name if isinstance(s.name, str) else 0
+            src = s.frame if (s.frame.rows == s.ctx[1] and s.frame.order == s.ctx[2]) else s.frame.derive(rows=s.ctx[1], order=s.ctx[2])          # (a selection of the series' rows)
+            g = self.project(src, [vname] if isinstance(vname, str) and src.has(vname) else [], node)
+            g.setcol(vname, s.term)
+            g.index, g.index_name = src.index, getattr(src, "index_name", None)
+            g.index_keys = getattr(src, "index_keys", None)
             return self.f_reset_index(g, [], {k: v for k, v in kw.items() if k in ("names",)}, node)
         if name == "reset_index":
             return Ser(s.term, s.ctx, s.frame, s.name)
